@@ -117,8 +117,12 @@ def shard_field(arg):
                 continue
             m = k % 4
             width = w if m in (0, 1) else rng.randrange(1, w + 1)
+            if k % 16 in (5, 10, 15) and name == ("bank_code", "branch_code", "account_code")[(k % 16) // 5 - 1]:
+                width = 0           # a component left out (the field is filled by padding): digits are computed over what is built
             short = short or width < w
-            vals[name] = conforming(rng, cl, width)
+            vals[name] = conforming(rng, cl, width) if width else ""
+            if not width:
+                rec.classes["generate-component-omitted"] += 1
         res = check_built(rec, cc, "generate", vals,
                           lambda: IBAN.generate(cc, bank_code=vals["bank_code"], account_code=vals["account_code"],
                                                 branch_code=vals["branch_code"]))
@@ -217,5 +221,5 @@ def run(ctx):
     ctx.extra["random_success"] = {cc: ctx.rec.classes.get(f"random-success-{cc}", 0) for cc in onat.FIELD}
     from ._configs import stage as _config_stage
     _config_stage(ctx, ['national', 'generate'])
-    ctx.require_classes("cc-spelling", "from_components-ncd-ok", "generate-ok", "random-ok", "rebuild-rich", "rebuild",
+    ctx.require_classes("generate-component-omitted", "cc-spelling", "from_components-ncd-ok", "generate-ok", "random-ok", "rebuild-rich", "rebuild",
                         *[f"random-success-{cc}" for cc in onat.FIELD])
